@@ -127,6 +127,11 @@ func baseFor(sc Scn, dir string) (*world.Base, error) {
 		if i == 1 {
 			t = "x.pa"
 		}
+		if i == 0 && sc.Task == "import" {
+			// the first announced tip pays the wallet that is being imported: a block the
+			// follower connects while the rescan runs must end up in the restored wallet's ledger
+			t = "x.pc1"
+		}
 		if ok, err := w.Apply(t); err != nil || !ok {
 			return nil, fmt.Errorf("tip %d: %v %v", i, ok, err)
 		}
